@@ -10,7 +10,9 @@ def run(ctx):
     R = ctx.report
     R.explanation = "ORD-1 (paired): every order-specific decoder in construct_arguments is selected by the matching `endianness == Big` branch; width discriminants equal the bit widths."
     R.not_decided = ["numeric decoding inside nom (trusted)"]
-    lib_ord.check(ctx, [FN] + HELPERS, "ORD-1", paired=(FN,))
+    from rules import lib_nonverbose
+    wk = lib_nonverbose.worker(ctx.facts)
+    lib_ord.check(ctx, [FN] + ([wk] if wk != FN else []) + HELPERS, "ORD-1", paired=(FN,))
     R.floor("ORD-1", 10)
     lib_const.check(ctx, names=set(), rule="CONST", enums=True)
     R.floor("CONST", 7)
